@@ -16,15 +16,33 @@ use crate::rt::{log, EnvParams, Ev, Status, RT};
 const DELTA_MS: u64 = 50;
 
 fn scenario(depth: usize, batch: BatchMode, pauses: Vec<u64>, p: u64, bound: usize) -> Scenario {
+    scenario_m(depth, batch, pauses, p, bound, None)
+}
+
+const SIDE: i64 = 5000;
+
+/// `merged`: the channel source is first merged with a bounded stream of one element (5000) that
+/// ended long ago - `Some(false)`: channel.merge(bounded), `Some(true)`: bounded.merge(channel).
+/// The two-input block must go on producing batch flushes for its live input.
+fn scenario_m(depth: usize, batch: BatchMode, pauses: Vec<u64>, p: u64, bound: usize, merged: Option<bool>) -> Scenario {
     let k = pauses.len();
     let adaptive = matches!(batch, BatchMode::Adaptive(..));
-    let name = format!("C18/depth{depth}/{:?}/pauses{:?}/p{p}", batch, pauses).replace(' ', "");
-    let descr = format!("channel source -> {depth} block boundaries -> collect_channel, batch mode {:?}, {k} elements sent after pauses of {:?} ms, then the sender stays idle (not closed); parallelism {p}", batch, pauses);
+    let mname = match merged {
+        None => "",
+        Some(false) => "merge-ended-right/",
+        Some(true) => "merge-ended-left/",
+    };
+    let name = format!("C18/{mname}depth{depth}/{:?}/pauses{:?}/p{p}", batch, pauses).replace(' ', "");
+    let descr = format!("channel source {}-> {depth} block boundaries -> collect_channel, batch mode {:?}, {k} elements sent after pauses of {:?} ms, then the sender stays idle (not closed); parallelism {p}", if merged.is_some() { "merged with a bounded one-element stream that has already ended " } else { "" }, batch, pauses);
     let pauses2 = pauses.clone();
     let body: crate::rt::Body = Arc::new(move || {
         let env = Layout::Local(p).env(0);
         let (tx, source) = ChannelSource::<i64>::new(4);
         let mut s: DS<i64> = erase(env.stream(source).batch_mode(batch));
+        if let Some(left) = merged {
+            let side = env.stream_iter(vec![SIDE].into_iter()).batch_mode(batch);
+            s = if left { erase(side.merge(s)) } else { erase(s.merge(side)) };
+        }
         for d in 0..depth {
             s = if d % 2 == 0 { erase(s.shuffle().map(|x| x + 1)) } else { erase(s.group_by(|x: &i64| x % 2).map(|(_, x)| x + 1).drop_key()) };
         }
@@ -43,8 +61,9 @@ fn scenario(depth: usize, batch: BatchMode, pauses: Vec<u64>, p: u64, bound: usi
         // its own: the harness waits without any timer of its own, so an element that is
         // withheld leaves every task blocked - which the engine reports as a deadlock.
         if adaptive {
-            for _ in 0..pauses2.len() {
+            for _ in 0..pauses2.len() + merged.is_some() as usize {
                 match rx.recv() {
+                    Ok(v) if v >= SIDE => log(Ev::Note("arrival", vec![v, 0])),
                     Ok(v) => {
                         let idx = ((v - (depth as i64)) / 100) as usize;
                         let lat = RT.now().saturating_sub(sent_at[idx.min(sent_at.len() - 1)]);
@@ -90,7 +109,8 @@ fn scenario(depth: usize, batch: BatchMode, pauses: Vec<u64>, p: u64, bound: usi
                     got.push(v[0]);
                     // block boundaries = depth + 1 (collect_channel adds one); every explored
                     // deviation may be an early timer firing that lets one max_delay pass idly
-                    let limit = ((2 * (depth as u64 + 1) + bound as u64) * DELTA_MS) as i64;
+                    // (merging adds one: the two-input block sits behind the source's block)
+                    let limit = ((2 * (depth as u64 + 1 + merged.is_some() as u64) + bound as u64) * DELTA_MS) as i64;
                     if v[1] > limit {
                         return Err(Fail::new("c18-latency", format!("{d2}: element {} reached the sink {} ms (virtual) after it was handed to the source, more than (2 x boundaries + deviations) x max_delay = {limit} ms", v[0], v[1])));
                     }
@@ -100,7 +120,10 @@ fn scenario(depth: usize, batch: BatchMode, pauses: Vec<u64>, p: u64, bound: usi
             }
         }
         got.sort();
-        let exp: Vec<i64> = (0..k as i64).map(|i| i * 100 + depth as i64).collect();
+        let mut exp: Vec<i64> = (0..k as i64).map(|i| i * 100 + depth as i64).collect();
+        if merged.is_some() {
+            exp.push(SIDE + depth as i64);
+        }
         if got != exp {
             return Err(Fail::new("c18-result", format!("{d2}: sink received {:?}, expected {:?}", got, exp)));
         }
@@ -145,6 +168,31 @@ fn build(tier: Tier) -> Vec<Scenario> {
             }
         }
     }
+    // the channel source behind a two-input block whose other input has ended
+    for left in [false, true] {
+        for depth in 1..=2usize {
+            for m in &modes {
+                for ps in &pause_sets {
+                    if tier == Tier::Quick && (depth == 2 && !matches!(m, BatchMode::Adaptive(..))) {
+                        continue;
+                    }
+                    out.push(scenario_m(depth, *m, ps.clone(), 1, bound, Some(left)));
+                }
+            }
+        }
+    }
+    // whatever the batch mode, a round's elements are delivered when the round ends: loops
+    // (whose next round waits for the previous one's elements) end with the sequential result
+    {
+        use crate::program::Instr::*;
+        use crate::props::common::{program_scenario, JobCfg, SrcKind};
+        for m in &modes {
+            for prog in [vec![Shuffle, Replay(2, vec![Shuffle, Map])], vec![Shuffle, Iterate(2, vec![Shuffle, Filter])], vec![Replay(2, vec![GbSum])]] {
+                let cfg = JobCfg { layout: Layout::Local(2), batch: *m, capacity: 0 };
+                out.push(program_scenario("C18/round-end", &prog, &[1, 2, 3, 4], SrcKind::Par(vec![0, 1, 0, 1]), &cfg, if tier == Tier::Quick { 0 } else { 1 }, &ORDERS3, "c18-round-end:".to_string()));
+            }
+        }
+    }
     if tier == Tier::Quick {
         crate::props::common::deepen(&mut out, &|n| (n.contains("/depth1/") || n.contains("/depth2/")) && n.contains("Adaptive") && n.ends_with("/p1"));
     }
@@ -155,7 +203,7 @@ pub fn spec() -> PropSpec {
     PropSpec {
         id: "C18",
         build,
-        rule: "channel source fed by the harness task (1-3 elements after pauses of 0, max_delay/2 or 3 x max_delay of virtual time), which then keeps the sender open and idle; 1-3 block boundaries (shuffle / group_by), parallelism 1-2; adaptive modes (size 2 and 1024, max_delay 50 ms): every element must reach the collect_channel sink while the source is still open, within 2 x depth x max_delay of virtual time; all modes (adaptive, fixed 2 / 1024, single): after the source is closed the sink has received exactly the sent elements; virtual timers fire when every task waits, or early as a deviation; every schedule within the deviation bound under three canonical orders; non-trivial = adaptive mode",
+        rule: "channel source fed by the harness task (1-3 elements after pauses of 0, max_delay/2 or 3 x max_delay of virtual time), which then keeps the sender open and idle; 1-3 block boundaries (shuffle / group_by), parallelism 1-2; adaptive modes (size 2 and 1024, max_delay 50 ms): every element must reach the collect_channel sink while the source is still open, within 2 x depth x max_delay of virtual time; all modes (adaptive, fixed 2 / 1024, single): after the source is closed the sink has received exactly the sent elements; virtual timers fire when every task waits, or early as a deviation; the same with the channel source merged (on either side) with a bounded stream that has already ended; loops (replay / iterate with a shuffle in the body) under every batch mode end with the sequential result (a round's buffered elements are delivered when the round ends); every schedule within the deviation bound under three canonical orders; non-trivial = adaptive mode",
         assumptions: &["virtual time: the latency claim is about timer order and count, not OS latency", "deviation bound as reported"],
         exhaustive_when_uncapped: false,
         budget_s: (55, 1200),
